@@ -204,11 +204,48 @@ def run(prop, tier, repo, spec):
             'for_this_property': mine,
             'wall_s': round(time.time() - t1, 2),
         }
+        extra['mutation_sweep'] = mutation_sweep(prop, repo)
         w = run_witness(repo)
         extra['witness'] = w
         if w.get('status') not in ('ok', 'skipped'):
             failures.append('compile-fail witness failed: %s' % w.get('detail', '')[:400])
     return extra, failures
+
+
+def mutation_sweep(prop, repo):
+    """evidence only: single-token mutants (sweep/mutate.py) of the files the property is anchored in, each pushed through
+    the driver and all rules (nothing is executed); how many are reported, and which are not"""
+    import mutate
+    t0 = time.time()
+    files = []
+    try:
+        for l in open(os.path.join(VERIF, 'properties.jsonl')):
+            d = json.loads(l)
+            if d['id'] == prop:
+                files = [f for f in d.get('anchors', {}).get('files', []) if f.endswith('.rs') and f.startswith('src/')]
+    except Exception as e:
+        return {'status': 'skipped', 'why': repr(e)[:200]}
+    mutate.REPO = repo
+    ms = []
+    for f in files:
+        if os.path.exists(os.path.join(repo, f)):
+            ms += mutate.mutants_of(f)
+    if not ms:
+        return {'status': 'skipped', 'why': 'no anchored source files'}
+    with ProcessPoolExecutor(max_workers=16, initializer=_set_repo, initargs=(repo,)) as ex:
+        res = list(ex.map(mutate.one, [(m, False) for m in ms], chunksize=4))
+    cnt = {}
+    for r in res:
+        cnt[r['status']] = cnt.get(r['status'], 0) + 1
+    mine = [r for r in res if r['status'] == 'reported' and prop in r.get('props', [])]
+    silent = [{'id': r['id'], 'old': r['old'].strip()[:80], 'new': r['new'].strip()[:60]} for r in res if r['status'] == 'silent']
+    return {'explanation': 'evidence only: every single-token mutant of the anchored files is analysed statically; "reported" = some rule reports a violation (for_this_property = a rule attributed to this property does); the silent ones are triaged in sweep/MUTANTS.md (equivalent for the properties, or mask/layout arithmetic)',
+            'files': files, 'mutants': len(ms), 'outcomes': cnt, 'reported_for_this_property': len(mine), 'silent': silent[:60], 'wall_s': round(time.time() - t0, 1)}
+
+
+def _set_repo(repo):
+    import mutate
+    mutate.REPO = repo
 
 
 def run_witness(repo):
